@@ -4,6 +4,7 @@ import Driver.C15
 import Driver.C16
 import Driver.Client
 import Driver.C06
+import Driver.C10
 import Driver.Pool
 import Driver.C18
 /-!
@@ -37,6 +38,10 @@ def dispatch (line : String) : String :=
     | "tls" => C06.tlsOp args
     | "pool" => PoolOp.poolOp args
     | "transports" => C18.transportsOp args
+    | "body" => C10.bodyOp args
+    | "crlf" => C10.simpleOp LV.BodyEnc.crlfNormalize "crlf" args
+    | "qp" => C10.qpOp args
+    | "b64" => C10.b64Op args
     | "sendmsg" => C18.sendmsgOp args
     | "mailparam" => C04.mailparamOp args
     | "ehlocmd" => C04.ehlocmdOp args
